@@ -96,6 +96,25 @@ class C04(Check):
                     if 0 < k <= m["csize"]:
                         d = data[:de - k] + data[de:]
                         add(d, idx, "truncate%d" % k)
+            # the same through read_exact(k) followed by read_to_end (k = 0, everything, half): the last call may add nothing
+            for idx, m in enumerate(man["entries"]):
+                us = len(bytes.fromhex(m["content"]))
+                variants = [(data, "intact")]
+                ds, de = m["data_start"], m["data_start"] + m["csize"]
+                spots = list(range(ds, de)) + list(range(m["central_start"] + 16, m["central_start"] + 20)) + list(range(m["header_start"] + 14, m["header_start"] + 18))
+                for p_ in (spots if len(spots) <= 24 else r.sample(spots, 24)):
+                    d = bytearray(data); d[p_] ^= 1 << r.randrange(8)
+                    variants.append((bytes(d), "bitflip@%d" % p_))
+                for val in (1, 0xffffffff, m["crc"] ^ 1):
+                    d = bytearray(data)
+                    d[m["central_start"] + 16:m["central_start"] + 20] = val.to_bytes(4, "little")
+                    d[m["header_start"] + 14:m["header_start"] + 18] = val.to_bytes(4, "little")
+                    variants.append((bytes(d), "crc=%08x" % val))
+                for d, kind in variants:
+                    for k in sorted(set([0, us, us // 2])):
+                        meta = dict(seed=sname, idx=idx, kind=kind + "/rte%d" % k, ae2=(m["aes"] and sname == "ae2"), content=m["content"], crc=m["crc"],
+                                    damaged=(kind != "intact"), impl_only=True)
+                        cases.append(("entry %s %d %d %s %d" % (hexs(d), idx, 1 if pw else 0, hexs(pw or b""), 1000000 + k), meta))
             if len(man["entries"]) == 2:      # swapped payloads (same lengths not required: headers keep their sizes)
                 m0, m1 = man["entries"]
                 d = bytearray(data)
